@@ -507,7 +507,7 @@ def run_seed(seed, ctx):
             v["replay"]["scenario"]["runs"] = msc["runs"]
             res["violations"].append(v)
     res["events_sha"] = hashlib.sha1("".join(shas).encode()).hexdigest()
-    if seed % 7 == 0 and ctx.get("role", 0) == 0:
+    if (seed % 7 == 0 or ctx.get("want_sample")) and ctx.get("role", 0) == 0:
         res["sample"] = {"seed": seed, "spec_params": sc["params"], "mode": sc["mode"],
                          "reference_front_rows": len(first["rows"]),
                          "reference_objectives": [r["obj"] for r in first["rows"]][:5],
